@@ -313,6 +313,24 @@ Definition run_endpoint (cmp : string -> string -> bool) (cf : config) (st : lis
   | EDevice => device_endpoint cmp st rq
   end.
 
+(* Parameters in the request URI.  Three of the four endpoints read the body only (r.PostForm).
+   NewPushedAuthorizeRequest authenticates with r.Form, in which net/http appends the URI's query values after the
+   body's: a client_secret / client_assertion(_type) of the query is used whenever the body carries none.
+   [u] holds what the query carries (its header and client_id fields are not used). *)
+Definition merge_uri (b u : request) : request :=
+  Rq (r_hdr b) (r_fid b)
+     (if nonempty (r_fsec b) then r_fsec b else r_fsec u)
+     (if nonempty (r_atype b) then r_atype b else r_atype u)
+     (if r_ahas b then true else r_ahas u)
+     (if r_ahas b then r_as b else r_as u).
+
+Definition run_endpoint_uri (cmp : string -> string -> bool) (cf : config) (st : list client)
+           (ep : endpoint) (rq u : request) (houts : list (nat * hres)) : obs :=
+  match ep with
+  | EPAR _ => run_endpoint cmp cf st ep (merge_uri rq u) houts
+  | _ => run_endpoint cmp cf st ep rq houts
+  end.
+
 (* ------------------------------------------------------------------ the handler table, checked by reflection *)
 Definition jwt_bearer_grant : string := "urn:ietf:params:oauth:grant-type:jwt-bearer".
 
